@@ -1555,8 +1555,11 @@ func (r *raft) removeNode(id uint64) {
 	}
 
 	// The quorum size is now smaller, so see if any pending entries can
-	// be committed.
-	if r.maybeCommit() {
+	// be committed. Only the leader may do that: the Match indexes are
+	// meaningless on any other node (reset() sets the node's own Match to its
+	// last index), e.g. on a follower that re-applies configuration changes
+	// after a restart while its voter set is still the snapshot's.
+	if r.state == StateLeader && r.maybeCommit() {
 		r.bcastAppend()
 	}
 	// If the removed node is the leadTransferee, then abort the leadership transferring.
